@@ -99,7 +99,7 @@ Definition engine_reply (w : world) (id : Z) (r : res event) : res (world * list
           else if id =? DECREASE_ID then update_position_reply w i o DECREASE_ID
           else if id =? REVERSE_ID then reverse_position_reply w i o
           else if id =? CLOSE_ID then close_position_reply w i o
-          else if id =? PARTIAL_CLOSE_ID then partial_close_position_reply w i o
+          else if id =? PARTIAL_CLOSE_ID then partial_close_position_reply w o i   (* swap_output: base in, quote out *)
           else if id =? LIQUIDATION_ID then liquidate_reply w i o
           else if id =? PARTIAL_LIQUIDATION_ID then partial_liquidation_reply w i o
           else Err EDecode
